@@ -43,7 +43,7 @@ class C10Machine(Machine):
         "transitive_curie_remap_applied", "uri_remap_applied", "rewire_applied",
         "chain_merged_later_into_earlier", "discover_with_known_uris", "lineage_depth_ge_3",
         "sub_nonempty", "mutation_right_after_derivation", "chain_same_converter_twice",
-        "curie_remap_applied", "large_root", "followup_add_with_pattern", "same_record_followed_through_lineage", "empty_mapping", "empty_prefix_subset", "root_with_more_than_256_records",
+        "curie_remap_applied", "large_root", "followup_add_with_pattern", "same_record_followed_through_lineage", "empty_mapping", "empty_prefix_subset", "same_derivation_again", "root_with_more_than_256_records",
     ]
 
     @classmethod
@@ -93,6 +93,7 @@ class C10Machine(Machine):
         self.strings, self.pairs = observe.probe_sets(cp, up, config["id_pool"], config["delimiters"], max_ids=2, compact=True)
         self.last_was_derivation = None
         self.last_mutation = None
+        self.last_derivation_op = None
         self.nontrivial_hit = False
         self.unstated = 0
 
@@ -104,6 +105,13 @@ class C10Machine(Machine):
         if self.last_was_derivation is not None and rng.random() < cfg["p_mutate_after_derive"]:
             h = self.last_was_derivation
             return self._gen_mutate(rng, h)
+        if self.last_derivation_op is not None and len(self.entries) < cfg.get("max_converters", MAX_CONVERTERS) \
+                and rng.random() < 0.08:
+            # the very same derivation once more: the result must again be new and independent
+            op = copy.deepcopy(self.last_derivation_op)
+            op["out"] = self._fresh_id()
+            op["again"] = True
+            return op
         if self.last_mutation is not None and rng.random() < 0.35:
             # follow one record through the lineage: the same record is now merged into on a converter
             # that was derived (directly or not) from the one just modified
@@ -163,11 +171,12 @@ class C10Machine(Machine):
 
     def _gen_new(self, rng):
         cfg = self.config
-        n = rng.randint(1, 4) if not cfg.get("large") else rng.choice([8, 15, 16, 17, 24, 31, 32, 33])
+        n = rng.randint(1, 4) if not cfg.get("large") else rng.choice([8, 15, 16, 17, 24, 31, 32, 33, 64, 65])
         if cfg.get("huge") and not self.entries:
-            n = rng.choice([257, 258, 300])
+            n = rng.choice([128, 129, 255, 256, 257, 258, 300])
         recs = gen_valid_records(rng, cfg["curie_pool"], cfg["uri_pool"], n)
-        return {"op": "new", "out": self._fresh_id(), "records": recs, "delimiter": rng.choice(cfg["delimiters"])}
+        return {"op": "new", "out": self._fresh_id(), "records": recs, "delimiter": rng.choice(cfg["delimiters"]),
+                "container": rng.choice(tokens.CONTAINERS)}
 
     def _gen_chain(self, rng):
         k = rng.choice([1, 2, 2, 3, 4, 5])
@@ -178,7 +187,12 @@ class C10Machine(Machine):
         h = self._pick(rng)
         recs = self._recs(h)
         cands = [r["prefix"] for r in recs] + [s for r in recs for s in r["prefix_synonyms"]]
-        prefixes = [p for p in cands if rng.random() < 0.6]
+        density = rng.choice([0.6, 0.6, 1.0, 0.3, 0.05, "one", "two"])
+        if density in ("one", "two"):
+            k = min(len(cands), 1 if density == "one" else 2)
+            prefixes = rng.sample(cands, k) if k else []      # a sparse request out of a possibly big converter
+        else:
+            prefixes = [p for p in cands if rng.random() < density]
         if rng.random() < 0.3:
             prefixes.append(rng.choice(self.config["curie_pool"]))
         return {"op": "sub", "out": self._fresh_id(), "h": h, "prefixes": prefixes}
@@ -205,6 +219,8 @@ class C10Machine(Machine):
             else:
                 val = "new" + str(rng.randint(1, 3))
             pairs.append([key, val])
+        if rng.random() < 0.1:
+            pairs = pairs + [[f"irrelevant{i}", f"nowhere{i}"] for i in range(rng.choice([3, 10, 40]))]
         if rng.random() < 0.08:
             pairs = []      # the empty remapping: "nothing to do" must still give a new, independent converter
         if pairs and rng.random() < 0.25:
@@ -268,12 +284,12 @@ class C10Machine(Machine):
         cfg = self.config
         h = self._pick(rng)
         uris = []
-        for _ in range(rng.randint(1, 6)):
+        for _ in range(rng.choice([1, 2, 3, 4, 6, 6, 20, 60])):
             base = rng.choice(cfg["uri_pool"]) if rng.random() < 0.7 else "http://n.org/" + rng.choice(["a", "b"]) + rng.choice(["/", "#", "_"])
             uris.append(base + rng.choice(["1", "x2", "abc", "", "a b"]))
         if rng.random() < 0.1:
             uris = []
-        return {"op": "discover", "out": self._fresh_id(), "h": h, "uris": uris, "cutoff": rng.choice([None, None, 1, 2]),
+        return {"op": "discover", "out": self._fresh_id(), "h": h, "uris": uris, "cutoff": rng.choice([None, None, 1, 2, 5]),
                 "metaprefix": rng.choice(["ns", "m"]),
                 "delimiters": rng.choice([None, None, ["/"], ["#", "_"], [":", "/"]])}
 
@@ -306,6 +322,10 @@ class C10Machine(Machine):
             rec["uri_prefix"] = rng.choice(fresh_u)
         rec["prefix_synonyms"] = [s for s in rec["prefix_synonyms"] if s != rec["prefix"]]
         rec["uri_prefix_synonyms"] = [s for s in rec["uri_prefix_synonyms"] if s != rec["uri_prefix"]]
+        if rng.random() < 0.15:
+            n = rng.choice([2, 4, 8])
+            rec["prefix_synonyms"] = rec["prefix_synonyms"] + [f"fs{self.steps}_{i}" for i in range(n)]
+            rec["uri_prefix_synonyms"] = rec["uri_prefix_synonyms"] + [f"fs:{self.steps}/{i}/" for i in range(n)]
         if kind == "add_record" and rng.random() < 0.4:
             rec["pattern"] = rng.choice(["^\\d+$", "^[A-Z]+$"])      # only add_record can carry a pattern
         return {"op": "mutate", "h": h, "kind": kind, "record": rec,
@@ -411,7 +431,8 @@ class C10Machine(Machine):
             if len(self.entries) >= self.config.get("max_converters", MAX_CONVERTERS):
                 return {"skipped": "full"}
             try:
-                conv = c.Converter([c.Record(**r) for r in op["records"]], delimiter=op.get("delimiter", ":"))
+                conv = c.Converter(tokens.as_container(op.get("container", "list"), [c.Record(**r) for r in op["records"]]),
+                                   delimiter=op.get("delimiter", ":"))
             except Exception:  # noqa: BLE001 - building roots is not what this property is about
                 return {"skipped": "invalid records"}
             h = self._add(conv, [], "new", op.get("out"))
@@ -461,6 +482,9 @@ class C10Machine(Machine):
         except Exception as e:  # noqa: BLE001 - which error is C09/C11/C12's business
             err = e
         self.event("derive_" + kind)
+        self.last_derivation_op = {k: v for k, v in op.items() if k != "again"}
+        if op.get("again"):
+            self.probe("same_derivation_again")
         if err is not None:
             self.fault("derivation_raised_" + type(err).__name__)
             self.probe("derivation_raised")
@@ -496,6 +520,10 @@ class C10Machine(Machine):
         if err is None:
             if result is None or any(result is i for i in inputs):
                 raise Violation(PROP, "not_new_object", site, {"op": op})
+            for oid, other in sorted(self.entries.items()):
+                if result is other.conv:
+                    # "return a new converter": an object that an earlier derivation already handed out is not new
+                    raise Violation(PROP, "not_new_object", site, {"op": op, "same_object_as_converter": oid})
             h = self._add(result, hs, kind, op.get("out"))
             self._reach_after_derivation(kind, op, hs, result)
             self.last_was_derivation = h
